@@ -1,4 +1,76 @@
-(* placeholder until Lemmas.v exists *)
-From V Require Import Base.Text C12.Model.
-Theorem placeholder : True. Proof. exact I. Qed.
-Print Assumptions placeholder.
+(* C12/Props.v — the property theorems of C12 (statements only; proofs in Lemmas.v).
+   C12: "For any original and formatted text, the chunks of the modified-lines report applied to the
+   original yield the formatted text line for line, ... the json and checkstyle reports name the same line
+   numbers and texts, and each diff hunk's context, removed and added lines are consistent with both texts at
+   the stated line numbers. A report is empty exactly when the two texts have the same lines; the json and
+   checkstyle documents are well-formed whatever characters the source contains."
+   All statements are for every pair of texts / every valid diff script and every context size: no bound. *)
+From V Require Import Base.Text C12.Model C12.Lemmas.
+Local Open Scope nat_scope.
+
+(* diff::lines yields a valid edit script between the two line sequences, and its Both entries pair equal lines *)
+Theorem lcs_valid : forall a b : text,
+  projL (diff_lines a b) = dlines a /\ projR (diff_lines a b) = dlines b /\ both_eq (diff_lines a b).
+Proof. exact diff_lines_valid. Qed.
+Print Assumptions lcs_valid.
+
+(* modified-lines clause: applying the chunks (context 0) to the original gives the formatted lines;
+   for ANY valid script, hence for any diff algorithm *)
+Theorem apply_reconstructs : forall (A : Type) (s : list (dres A)),
+  both_eq s -> apply_chunks 1 (projL s) (modified_lines (make_diff 0 s)) = Some (projR s).
+Proof. exact (@apply_reconstructs_lemma). Qed.
+Print Assumptions apply_reconstructs.
+
+(* the same, end to end on texts *)
+Theorem apply_reconstructs_text : forall a b : text,
+  apply_chunks 1 (dlines a) (impl_modified_lines a b) = Some (dlines b).
+Proof.
+  intros a b. destruct (diff_lines_valid a b) as (HL & HR & Hbe).
+  unfold impl_modified_lines, impl_make_diff. rewrite <- HL, <- HR. apply apply_reconstructs_lemma; exact Hbe.
+Qed.
+Print Assumptions apply_reconstructs_text.
+
+(* each hunk's context+removed lines are in the original at line_number_orig, its context+added lines in the
+   formatted text at line_number; every context size *)
+Theorem hunks_consistent : forall (A : Type) (ctx : nat) (s : list (dres A)),
+  both_eq s -> Forall (hunk_at (projL s) (projR s)) (make_diff ctx s).
+Proof. exact (@hunks_consistent_lemma). Qed.
+Print Assumptions hunks_consistent.
+
+(* a report is empty exactly when the two texts have the same lines (same str::lines and same final-newline flag) *)
+Theorem empty_iff : forall (ctx : nat) (a b : text),
+  impl_make_diff ctx a b = [] <-> (str_lines a = str_lines b /\ ends_with_lf a = ends_with_lf b).
+Proof. exact empty_iff_lemma. Qed.
+Print Assumptions empty_iff.
+
+(* json: original/expected are the removed/added lines found at the begin lines in the two texts;
+   end = begin + count - 1 (and end = begin when count = 0) *)
+Theorem json_blocks_ok : forall (A : Type) (s : list (dres A)),
+  both_eq s -> Forall (jblock_ok (projL s) (projR s)) (json_blocks (make_diff 0 s)).
+Proof. exact (@json_blocks_ok_lemma). Qed.
+Print Assumptions json_blocks_ok.
+
+(* checkstyle: every reported (line, message) is a line of the formatted text at that 1-based number *)
+Theorem checkstyle_lines_ok : forall (A : Type) (s : list (dres A)) (n : nat) (msg : A),
+  both_eq s -> In (n, msg) (checkstyle_errors (make_diff 0 s)) ->
+  1 <= n /\ nth_error (projR s) (n - 1) = Some msg.
+Proof. exact (@checkstyle_lines_ok_lemma). Qed.
+Print Assumptions checkstyle_lines_ok.
+
+(* XmlEscaped loses nothing and its output is a well-formed attribute value (no raw '<', double quote, or bare '&') *)
+Theorem xml_escape_ok : forall t : text,
+  xml_unescape (xml_escape t) = t /\ wf_attr (xml_escape t) = true.
+Proof. intros t. split; [apply xml_unescape_escape|apply xml_escape_wf]. Qed.
+Print Assumptions xml_escape_ok.
+
+(* ... but characters with no XML 1.0 representation pass through unchanged: well-formedness "whatever
+   characters the source contains" holds only outside this class (known finding class HasXmlForbiddenChar) *)
+Theorem checkstyle_wellformed_partial : forall t : text,
+  existsb xml_forbidden t = false -> existsb xml_forbidden (xml_escape t) = false /\ wf_attr (xml_escape t) = true.
+Proof. intros t H. split; [rewrite xml_escape_forbidden; exact H|apply xml_escape_wf]. Qed.
+Print Assumptions checkstyle_wellformed_partial.
+
+Theorem checkstyle_wellformed_refuted : exists t : text,
+  existsb xml_forbidden (xml_escape t) = true.
+Proof. exists [12%N]. reflexivity. Qed.
+Print Assumptions checkstyle_wellformed_refuted.
